@@ -89,6 +89,12 @@ POOLS = [
     [b"\x12", b"\x13", b"\x92", b"\x10", b"\x1f", b"\x00", b"\xff"],                                  # fixed length 1
     [b"\x12\x34", b"\x12\x35", b"\x12\xb4", b"\x13\x34", b"\x92\x34", b"\x12\x30", b"\x00\x00", b"\xff\xff"],  # fixed length 2
     [b"\x12", b"\x12\x34", b"\x12\x34\x56", b"\x12\x35", b"\x13", b"\x12\x34\x57", b"\x80", b"\x12\xff"],    # prefix related
+    # a full byte of consecutive branch nodes below a common prefix, on the all-ones and on the all-zeros spine
+    # (a lookup of the prefix itself that runs off the end of its key path must not slide down a spine): seeded
+    # change C12-get-branch-guard-dropped was invisible without these
+    [b"\x01" + bytes([x]) for x in (0x00, 0x80, 0xc0, 0xe0, 0xf0, 0xf8, 0xfc, 0xfe, 0xff)],
+    [b"\x01" + bytes([x]) for x in (0xff, 0x7f, 0x3f, 0x1f, 0x0f, 0x07, 0x03, 0x01, 0x00)],
+    [bytes([x]) for x in (0x00, 0x80, 0xc0, 0xe0, 0xf0, 0xf8, 0xfc, 0xfe, 0xff)] + [b"\xff\x00"],
 ]
 
 
@@ -101,6 +107,13 @@ def gen_cases(rng, tier):
     for n in range(1, maxlen + 1):
         for ops in itertools.product(alphabet, repeat=n):
             yield {"ops": list(ops)}
+    for pool in POOLS[3:]:
+        for rep in range(3 if tier == "quick" else 30):
+            keys = list(pool)
+            rng.shuffle(keys)
+            ops = [["set", k.hex(), (b"v" + k).hex()] for k in keys]
+            ops += [["del", rng.choice(keys).hex()] for _ in range(rep % 3)]
+            yield {"ops": ops}
     n = 900 if tier == "quick" else 30000
     for i in range(n):
         r = rng.random()
